@@ -10,10 +10,13 @@ Protocol (ids are small naturals; op n is "op<n>", resource n is "r<n>" in the i
   advance o            controller.advance(ctx) (default checkpoints: G0 -> G1 makes the operation a starvation candidate)
   deadlock             controller.check_deadlock()                    watchdog   watchdog.execute(controller)
   boost                priority_manager.check_and_boost(controller)   maint      run_maintenance()
-  exec o p r,r,..|-|none <4 x b|n|x|y|z> <n|k<t>|s|w|m>:<ok|raise[.K]>[:<us passing inside work>] <absent|yes|no|raise[.K]>
-                       CoordinationSystem.execute_operation
+  exec o p r,r,..|-|none <4 x b|n|x|y|z>[@<i><act>[:<us>]]* <act>:<ok|raise[.K]>[:<us passing inside work>] <absent|yes|no|raise[.K]>[@<act>[:<us>]]
+                       CoordinationSystem.execute_operation;  <act> = n | k<t> | s | w | m: what the callback does to the
+                       system before it answers (nothing / kill_operation(op t) / shutdown / watchdog.execute /
+                       run_maintenance) - the i-th checkpoint condition (i = 0..3, in call order), work_fn, validate_fn
   cell o p <same five fields as exec> <ok|notag|raise[.K]>          IntegratedCell.execute (cell.coordination = the system)
-A work function that returns does so with `ok` (42) or `ok.<V>`: N None, Z 0, E "", L [], F False, O object().
+A work function that returns does so with `ok` (42) or `ok.<V>`: N None, Z 0, E "", L [], F False, O object(),
+X a value whose repr() / str() / format() raise, B a value whose bool() / len() raise, Q an unhashable value whose == raises.
 Exception kinds K: V0 ValueError(), A0 AssertionError(), R0 RuntimeError(""), K0 KeyError(), C0 CustomFault() (all with
 str(e) == ""), Vm ValueError("boom"), Km KeyError("k"), Cm CustomFault("boom"), SX BadStrFault() (str(e) and repr(e)
 raise); plain `raise` = RuntimeError with a message.  Checkpoints: x RuntimeError("checkpoint"), y ValueError(), z CustomFault().  BaseException subclasses
@@ -55,9 +58,43 @@ def make_exc(tok, default_msg):
             "SX": lambda: BadStrFault()}.get(kind, lambda: RuntimeError(default_msg))()
 
 
+class BadReprValue:
+    """a value that cannot be rendered: repr(), str() and format() raise (a proxy whose backend is gone)"""
+
+    def __repr__(self):
+        raise RuntimeError("bad __repr__")
+
+    def __str__(self):
+        raise RuntimeError("bad __str__")
+
+    def __format__(self, spec):
+        raise RuntimeError("bad __format__")
+
+
+class BadBoolValue:
+    """a value without a truth value (numpy arrays, pandas frames): bool() and len() raise"""
+
+    def __bool__(self):
+        raise ValueError("truth value is ambiguous")
+
+    def __len__(self):
+        raise TypeError("no len")
+
+
+class BadEqValue:
+    """an unhashable value whose comparison raises"""
+    __hash__ = None
+
+    def __eq__(self, other):
+        raise RuntimeError("bad __eq__")
+
+    def __ne__(self, other):
+        raise RuntimeError("bad __ne__")
+
+
 RESULTS = {"N": lambda: None, "Z": lambda: 0, "E": lambda: "", "L": lambda: [], "F": lambda: False,
-           "O": lambda: object()}
-RESULT_KINDS = ["", "", "", ".N", ".N", ".Z", ".E", ".L", ".F", ".O"]
+           "O": lambda: object(), "X": lambda: BadReprValue(), "B": lambda: BadBoolValue(), "Q": lambda: BadEqValue()}
+RESULT_KINDS = ["", "", "", ".N", ".N", ".Z", ".E", ".L", ".F", ".O", ".X", ".X", ".X", ".B", ".Q"]
 KINDS = ["", "", ".V0", ".A0", ".R0", ".K0", ".C0", ".Vm", ".Km", ".Cm", ".SX", ".SX"]
 
 
@@ -187,20 +224,45 @@ class Impl:
         C = self.o.m_controller
         op, prio = opn(int(t[1])), int(t[2])
         req = None if t[3] == "none" else ([] if t[3] == "-" else [rn(int(x)) for x in t[3].split(",")])
-        script = t[4]
+        script = t[4].split("@")[0]
+        cp_acts = {}
+        for e in t[4].split("@")[1:]:
+            a = e[1:].split(":")
+            cp_acts[int(e[0])] = (a[0], int(a[1]) if len(a) > 1 else 0)
         wparts = t[5].split(":")
         act, wok = wparts[0], wparts[1]
         tick = int(wparts[2]) if len(wparts) > 2 else 0
-        val = t[6]
+        val = t[6].split("@")[0]
+        val_act = None
+        if "@" in t[6]:
+            a = t[6].split("@")[1].split(":")
+            val_act = (a[0], int(a[1]) if len(a) > 1 else 0)
         post = t[7] if via_cell else "ok"
         log = []
         counter = [0]
+        work_events = []
+
+        def perform(a, us):
+            """what a callback does to the system from inside before it answers"""
+            self.o.clock.advance_us(us)
+            if a.startswith("k"):
+                cs.kill_operation(opn(int(a[1:])))
+            elif a == "s":
+                cs.shutdown()
+            elif a == "w":
+                work_events.extend((num(e.operation_id), e.reason.value) for e in cs.watchdog.execute(ctrl))
+            elif a == "m":
+                work_events.extend((num(e.operation_id), e.reason.value) for e in cs.run_maintenance()["apoptosis"])
 
         def mk(phase):
             def cond(ctx):
                 i = counter[0]
                 counter[0] += 1
                 o = script[i] if i < len(script) else "b"
+                if i in cp_acts:
+                    perform(*cp_acts[i])
+                    if op not in ctrl.active_operations:
+                        info.setdefault("ended_in_cp", []).append(i)
                 if o in "xyz":
                     log.append(f"cp{i}:0")
                     raise {"x": lambda: RuntimeError("checkpoint"), "y": lambda: ValueError(),
@@ -211,26 +273,20 @@ class Impl:
             return cond
         ctrl.checkpoints = {ph: [C.Checkpoint(phase=ph, condition=mk(ph), name="scripted")] for ph in self.defaults}
         own = []
-        work_events = []
 
         def work():
             own.append("".join(("?" if r not in ctrl.resources else show_bool(ctrl.resources[r].owner == op))
                                for r in (req or [])))
+            info["listed_at_work"] = op in ctrl.active_operations
             log.append(f"work:{show_bool(wok.startswith('ok'))}")
-            self.o.clock.advance_us(tick)
-            if act.startswith("k"):
-                cs.kill_operation(opn(int(act[1:])))
-            elif act == "s":
-                cs.shutdown()
-            elif act == "w":
-                work_events.extend((num(e.operation_id), e.reason.value) for e in cs.watchdog.execute(ctrl))
-            elif act == "m":
-                work_events.extend((num(e.operation_id), e.reason.value) for e in cs.run_maintenance()["apoptosis"])
+            perform(act, tick)
             if not wok.startswith("ok"):
                 raise make_exc(wok, "work")
             return RESULTS[wok[3:]]() if "." in wok else 42
 
         def validate(x):
+            if val_act is not None:
+                perform(*val_act)
             log.append(f"val:{show_bool(val == 'yes')}")
             if val.startswith("raise"):
                 raise make_exc(val, "validate")
@@ -424,7 +480,19 @@ VALS = ["absent", "yes", "yes", "yes", "no", "raise", "raise"]
 POSTS = ["ok", "ok", "ok", "notag", "raise", "raise.V0", "raise.Cm"]
 
 
-def gen_exec(rng, op, nres, others, fault=None):
+CB_ACTS = ["k{op}", "k{op}", "k{op}", "k{other}", "s", "s", "w", "m"]
+
+
+def gen_cb_act(rng, op, others, ticks=(1, 4, 6, 11)):
+    """what a callback does to the system before it answers: <act>[:<us>]"""
+    a = rng.choice(CB_ACTS).format(op=op, other=rng.choice(others) if others else op)
+    if a in "wm" or rng.random() < 0.15:
+        if rng.random() < 0.7:
+            a += f":{rng.choice(ticks)}"
+    return a
+
+
+def gen_exec(rng, op, nres, others, fault=None, cb=None):
     k = rng.choice([0, 1, 1, 2, 2, 3, 3, 4])
     req = [rng.randint(1, nres) for _ in range(k)]
     if rng.random() < 0.04:
@@ -450,6 +518,15 @@ def gen_exec(rng, op, nres, others, fault=None):
     val = rng.choice(VALS)
     if val == "raise":
         val += rng.choice(KINDS)
+    # callbacks other than work_fn that act on the system: checkpoint conditions (mostly the G0 one, before the
+    # acquisitions) and validate_fn
+    if cb is None:
+        cb = rng.random() < 0.2
+    if cb:
+        idx = sorted(set(rng.choice([[0], [0], [0], [1], [2], [3], [0, 2], [0, 3], [1, 3]])))
+        cps += "".join(f"@{i}{gen_cb_act(rng, op, others)}" for i in idx)
+        if val != "absent" and rng.random() < 0.3:
+            val += "@" + gen_cb_act(rng, op, others)
     if rng.random() < 0.35:
         return f"cell {op} {rng.randint(0, 5)} {rs} {cps} {act}:{wok} {val} {rng.choice(POSTS)}"
     return f"exec {op} {rng.randint(0, 5)} {rs} {cps} {act}:{wok} {val}"
@@ -495,3 +572,45 @@ def gen_multi_kill(rng):
     lines.append(rng.choice(["watchdog", "watchdog", "maint", f"exec 8 1 {k + 1} bbbb w:ok yes", f"cell 8 1 - bbbb m:ok.N no ok"]))
     lines += ["deadlock", "watchdog", f"exec 7 2 1,2 bbbb n:ok yes"]
     return {"lines": lines, "note": "several kill reasons in one pass"}
+
+
+def gen_ended_in_callback(rng):
+    """An operation that is ended (manual kill / shutdown / watchdog timeout / maintenance run) from inside one of its
+    own callbacks other than work_fn - mostly the G0 checkpoint condition, before anything is acquired - and goes on
+    with a context object that is no longer listed; every fault after that; then somebody else wants the resources."""
+    nres = rng.choice([1, 2, 2, 3])
+    L = rng.choice([3, 5])
+    cfg = rng.choice(["cfg none none none priority", "cfg none none none priority", f"cfg {L} none none priority",
+                      f"cfg {L} {L} {L} oldest", f"cfg none {L} {L} priority"])
+    lines = [cfg] + [f"res {r} {rng.choice('001')}" for r in range(1, nres + 1)]
+    others = []
+    for o in rng.sample([2, 3], rng.choice([0, 0, 1, 1, 2])):
+        others.append(o)
+        lines.append(f"start {o} {rng.randint(0, 5)}")
+        for _ in range(rng.choice([0, 1, 1, 2])):
+            lines.append(f"acq {o} {rng.randint(1, nres)}")
+    k = rng.choice([1, 1, 2, 2, 3])
+    req = [rng.randint(1, nres) for _ in range(k)]
+    where = rng.choice([0, 0, 0, 0, 1, 2, 3, "v"])
+    how = rng.choice(["k1", "k1", "k1", "s", "s", f"w:{L + 1}", f"m:{L + 1}", f"w:{L}", "w"])
+    cps = rng.choice(CP_SCRIPTS)
+    val = rng.choice(VALS)
+    if val == "raise":
+        val += rng.choice(KINDS)
+    if where == "v":
+        if val == "absent":
+            val = "yes"
+        val += "@" + how
+    else:
+        cps += f"@{where}{how}"
+        if rng.random() < 0.2:
+            cps += f"@{rng.choice([i for i in range(4) if i != where])}{gen_cb_act(rng, 1, others)}"
+    act = rng.choice(["n", "n", "n", "k1", "s", "w", f"k{others[0]}" if others else "n"])
+    wok = "ok" + rng.choice(RESULT_KINDS) if rng.random() < 0.75 else "raise" + rng.choice(KINDS)
+    kind = "cell" if rng.random() < 0.3 else "exec"
+    lines.append(f"{kind} 1 {rng.randint(0, 5)} {','.join(map(str, req))} {cps} {act}:{wok} {val}"
+                 + (f" {rng.choice(POSTS)}" if kind == "cell" else ""))
+    lines.append(f"exec 4 {rng.randint(0, 5)} {','.join(str(r) for r in range(1, nres + 1))} bbbb n:ok yes")
+    if rng.random() < 0.3:
+        lines.append(rng.choice(["watchdog", "deadlock", "maint", "shutdown"]))
+    return {"lines": lines, "note": "ended from inside one of its own callbacks"}
